@@ -4,6 +4,7 @@ import (
 	"fmt"
 	"go/token"
 	"go/types"
+	"os"
 	"sort"
 	"strings"
 
@@ -251,6 +252,9 @@ func (z *ZEnv) fieldVersion(fa *ssa.FieldAddr, at *ssa.UnOp) (string, ssa.Value)
 			// a module callee that (transitively) stores to the field may modify it, whatever it is given;
 			// a callee without a body only through a pointer to the struct among its arguments
 			if callMayWriteField(x, f) {
+				if os.Getenv("MOSVERIF_DEBUG_FIELD") == f.String() {
+					fmt.Fprintf(os.Stderr, "fieldVersion %s in %s: modifier %s\n", f, z.fn.Name(), CallName(x))
+				}
 				mods = append(mods, in)
 			}
 		}
@@ -294,6 +298,35 @@ func (z *ZEnv) fieldVersion(fa *ssa.FieldAddr, at *ssa.UnOp) (string, ssa.Value)
 				return "@" + v.Name(), nil
 			}
 			return fmt.Sprintf("@%d", m.Pos()), nil
+		}
+	}
+	// no unique last modifier: the load still observes what an earlier load of the same field observed when that load
+	// dominates this one and no modifier can run between the two
+	var earlier *ssa.UnOp
+	EachInstr(z.fn, func(_ *ssa.BasicBlock, _ int, in ssa.Instruction) {
+		e, ok := in.(*ssa.UnOp)
+		if !ok || e == at || e.Op != token.MUL || earlier != nil {
+			return
+		}
+		fa2, ok := e.X.(*ssa.FieldAddr)
+		if !ok {
+			return
+		}
+		r := FieldAddrRef(fa2)
+		if r.Name != f.Name || !sameNamed(r.Struct, f.Struct) || z.Canon(fa2.X) != baseCanon || !InstrDominates(e, at) {
+			return
+		}
+		for _, m := range reach {
+			if Reach(z.fn, e, func(in ssa.Instruction) bool { return in == m }, nil) != nil &&
+				Reach(z.fn, m, func(in ssa.Instruction) bool { return in == ssa.Instruction(at) }, nil) != nil {
+				return
+			}
+		}
+		earlier = e
+	})
+	if earlier != nil {
+		if ver, val := z.fieldVersion(earlier.X.(*ssa.FieldAddr), earlier); val == nil {
+			return ver, nil
 		}
 	}
 	return "@" + at.Name(), nil
